@@ -251,6 +251,10 @@ pub fn finish_check(prop: &str, tier: &str, start: Instant, r: BResult) -> i32 {
             }
         }
     }
+    if !r.violations.is_empty() {
+        let all: Vec<String> = r.violations.iter().map(|v| v.message.clone()).collect();
+        let _ = std::fs::write(format!("/verif/target/violations_{}.txt", prop), all.join("\n"));
+    }
     let (head, dirty) = crate::props::repo_head_pub();
     let ev = json!({
         "property_id": prop,
